@@ -314,7 +314,7 @@ func (r *Run) Start() {
 	r.started = true
 	r.tr.Emit(map[string]any{"ev": "run.started"})
 	// worker gauges while the workers are alive (bounded wait for the goroutines to come up)
-	for i := 0; i < 200; i++ {
+	for i := 0; i < 1500; i++ {
 		if int(stats.PreprocessorRoutinesGet()) == r.cfg.WorkersCount && int(stats.ArchiverRoutinesGet()) == r.cfg.WorkersCount && int(stats.PostprocessorRoutinesGet()) == r.cfg.WorkersCount {
 			break
 		}
